@@ -249,6 +249,7 @@ fn one_scenario(cfg: &CheckCfg, index: usize, known: &KnownFile) -> JobOut {
                 }
             })
             .collect();
+        crate::watch::scenario(index, &history, &layouts);
         let prep = match prepare(&history, &layouts) {
             Ok(p) => p,
             Err((pi, outcome, text)) => {
@@ -716,7 +717,6 @@ pub fn run_check(cfg: &CheckCfg) -> CheckResult {
             std::thread::Builder::new()
                 .stack_size(256 << 20)
                 .spawn(move || {
-                    let mut local: Vec<JobOut> = vec![];
                     loop {
                         let i = next.fetch_add(1, Ordering::SeqCst);
                         if i >= cfg.scenarios {
@@ -725,18 +725,16 @@ pub fn run_check(cfg: &CheckCfg) -> CheckResult {
                         if t0.elapsed().as_secs() > cfg.wall_limit_s {
                             break;
                         }
-                        local.push(one_scenario(&cfg, i, &known));
+                        let o = one_scenario(&cfg, i, &known);
+                        results.lock().unwrap().push(o);
                     }
-                    results.lock().unwrap().extend(local);
                 })
                 .unwrap(),
         );
     }
-    for h in handles {
-        if h.join().is_err() {
-            eprintln!("harness error: worker thread died");
-            return CheckResult { exit: 2 };
-        }
+    if !crate::watch::join_all(handles) {
+        eprintln!("harness error: worker thread died");
+        return CheckResult { exit: 2 };
     }
     let mut outs = std::mem::take(&mut *results.lock().unwrap());
     outs.sort_by_key(|o| o.index);
@@ -956,6 +954,62 @@ pub fn run_check(cfg: &CheckCfg) -> CheckResult {
         }
     }
 
+    // ---- runs that never came back (watchdog) ----
+    for r in crate::watch::take_hung() {
+        let (index, case, raw) = crate::watch::case_of(&r);
+        let (property, class) = match cfg.id {
+            "C05" => ("C05", "Liveness"),
+            "C08" => ("C08", "Internal"),
+            _ => {
+                println!(
+                    "note: a run of scenario {} never came back (no instruction ended within {} s); that is C05's and C08's finding, this check could not judge the scenario",
+                    index,
+                    crate::watch::limit().as_secs()
+                );
+                continue;
+            }
+        };
+        n_violations += 1;
+        let texts: Vec<String> = match &raw {
+            Some(c) => vec![c.text.clone()],
+            None => case
+                .history
+                .programs
+                .iter()
+                .enumerate()
+                .map(|(i, sc)| crate::emit::emit(sc, &case.layouts[i.min(case.layouts.len() - 1)]).text)
+                .collect(),
+        };
+        let detail = format!(
+            "the run never came back: one VM instruction did not end within {} s (the program neither terminates nor ends in a BASIC error)",
+            crate::watch::limit().as_secs()
+        );
+        let rep = Replay {
+            property: property.to_string(),
+            class: class.to_string(),
+            key: "hang".into(),
+            detail: detail.clone(),
+            seed: cfg.seed,
+            scenario_index: index,
+            case,
+            texts: texts.clone(),
+            raw,
+        };
+        let dir = format!("{}/replays", cfg.verif_dir);
+        let _ = std::fs::create_dir_all(&dir);
+        let path = format!("{}/{}-{}-hang-{}.json", dir, cfg.id, cfg.seed, index);
+        std::fs::write(&path, serde_json::to_string_pretty(&rep).unwrap()).unwrap();
+        println!(
+            "violation: {} [{}] {}\n  program:\n{}\n  fault plan: {}",
+            property,
+            class,
+            detail,
+            indent(&texts.join("\n--- next program ---\n").replace("\r\n", "\n").replace('\r', "\n")),
+            serde_json::to_string(&rep.case.plan).unwrap()
+        );
+        violations_out.push(format!("VIOLATION property={} replay={}", cfg.id, path));
+    }
+
     if !agg.determinism_failures.is_empty() {
         if n_violations == 0 {
             eprintln!(
@@ -1136,7 +1190,6 @@ fn raw_part(
             std::thread::Builder::new()
                 .stack_size(256 << 20)
                 .spawn(move || {
-                    let mut local = vec![];
                     loop {
                         let i = next.fetch_add(1, Ordering::SeqCst);
                         if i >= total_jobs || t0.elapsed().as_secs() > wall_limit {
@@ -1153,16 +1206,13 @@ fn raw_part(
                             let case = gen_wrep(&mut rng);
                             wio_job(case, &mut a);
                         }
-                        local.push((i, a));
+                        results.lock().unwrap().push((i, a));
                     }
-                    results.lock().unwrap().extend(local);
                 })
                 .unwrap(),
         );
     }
-    for h in handles {
-        let _ = h.join();
-    }
+    let _ = crate::watch::join_all(handles);
     let mut outs = std::mem::take(&mut *results.lock().unwrap());
     outs.sort_by_key(|o| o.0);
     let mut accepted = 0usize;
